@@ -13,7 +13,7 @@ TRUSTED = ["the factorisation parse = finish . parseCore . strip of the Lean par
            "that re-laid-out texts scan to the same (class, spelling) sequence is checked per case, not proved (C09 round-trip theorem pending)"]
 ASSUMPTIONS = []
 
-STYLES = ["line", "single", "tight", "indent", "markers", "samemarker"]
+STYLES = ["line", "single", "tight", "indent", "markers", "samemarker", "litmarker"]
 
 
 def variants_obs(args):
@@ -62,7 +62,7 @@ def run(ctx):
     texts = [t for t in progs.pool(ctx, scale=0.5) if len(t) < 5000]
     rng = ctx.rng("seeds")
     args = [(t, rng.randrange(1 << 30)) for t in texts]
-    ctx.rule(progs.RULE + " x 7 re-layouts each (one token per line, single line, no blank wherever adjacency is allowed, random blanks/tabs/newlines, linemarkers changing line and file between arbitrary tokens, the same linemarker before every token so that all tokens share one coordinate, a run of 2..1500 consecutive directive lines in one gap); AST dump without coordinates and generated text must be identical; redundant-parenthesis variants are covered by C02's three parenthesisations against one expected AST")
+    ctx.rule(progs.RULE + " x 8 re-layouts each (one token per line, single line, no blank wherever adjacency is allowed, random blanks/tabs/newlines, linemarkers changing line and file between arbitrary tokens, the same linemarker before every token so that all tokens share one coordinate, file-less directives in front of literals that stand alone on their line, a run of 2..1500 consecutive directive lines in one gap); AST dump without coordinates and generated text must be identical; redundant-parenthesis variants are covered by C02's three parenthesisations against one expected AST")
     res = pmap(variants_obs, args)
     vtexts = []
     keys = set()
